@@ -381,10 +381,12 @@ func (c c09child) Exec(op string) string {
 //
 //	-> stop=<ok|hangs> up=<closed>/<accepted> leaked=<goroutines>   (measured up to 2.5 s after Stop was called)
 func (c09child) redir(mode string) string {
-	if mode != "k" && mode != "d" && mode != "n" && mode != "h" && mode != "f" && mode != "g" {
+	if mode != "k" && mode != "d" && mode != "n" && mode != "h" && mode != "f" && mode != "g" && mode != "a" {
 		return "bad-op"
 	}
-	full := mode == "f" || mode == "g"
+	// a: like f, but node A answers ASK (the resend is a group of two: ASKING and the command) and node B is a configured host too,
+	// so the session sends half of the requests to B itself and waits there for room, in the way of the groups
+	full := mode == "f" || mode == "g" || mode == "a"
 	var bGot int32
 	baseG := runtime.NumGoroutine()
 	var mu sync.Mutex
@@ -453,6 +455,9 @@ func (c09child) redir(mode string) string {
 		addrB = lnB.Addr().String()
 	}
 	go serveNode(lnA, func(cmd string) string {
+		if cmd == "get" && mode == "a" {
+			return "-ASK 1 " + addrB + "\r\n"
+		}
 		if cmd == "get" {
 			return "-MOVED 1 " + addrB + "\r\n"
 		}
@@ -527,7 +532,11 @@ func (c09child) redir(mode string) string {
 		ProtocolOptions: &service.Config_RedisOption{RedisOption: &protocol.RedisOption{ReadStrategy: pbredis.ReadStrategy_MASTER}},
 	}
 	c09seq++
-	p, err := proc.New(fmt.Sprintf("verif-c09r-%d", c09seq), cfg, []*host.Host{host.New(lnA.Addr().String())})
+	hostsR := []*host.Host{host.New(lnA.Addr().String())}
+	if mode == "a" {
+		hostsR = append(hostsR, host.New(addrB))
+	}
+	p, err := proc.New(fmt.Sprintf("verif-c09r-%d", c09seq), cfg, hostsR)
 	if err != nil {
 		return "procerr"
 	}
@@ -551,7 +560,11 @@ func (c09child) redir(mode string) string {
 		// outstanding on B's connection (its two queues and the one in its writer's hand) the read loop of A's connection waits
 		// in B's Send.  f: Stop;  g: node A is removed from the service first.
 		args := [][]byte{[]byte("mget")}
-		for i := 0; i < 2100; i++ {
+		nkeys := 2100
+		if mode == "a" {
+			nkeys = 6000 // about half of them go to B directly
+		}
+		for i := 0; i < nkeys; i++ {
 			args = append(args, []byte(fmt.Sprintf("k%d", i)))
 		}
 		if err := cl.Write(args...); err != nil {
@@ -936,7 +949,7 @@ func (c *c09) Gen(r *hx.Run) {
 		for _, m := range []string{"k", "n", "d", "h"} {
 			r.Do("c09.redir "+m, true, "redir")
 		}
-		for _, m := range []string{"f", "g"} {
+		for _, m := range []string{"f", "g", "a"} {
 			r.Do("c09.redir "+m, true, "redir-full-queue")
 		}
 		r.Do("c09.replace", true, "hosts-replaced-while-a-connection-ends")
